@@ -57,7 +57,7 @@ def run(ctx):
     from rules import c13
     sub = c13.run(ctx)
     for o in sub.obligations:
-        if o["rule"] in ("C13-R3", "C13-R7") or (o["rule"] in ("C13-R1", "C13-R2") and ("setData:" in o["key"] or o["key"] == "encodeDlc")):
+        if o["rule"] in ("C13-R3", "C13-R6", "C13-R7") or (o["rule"] in ("C13-R1", "C13-R2") and ("setData:" in o["key"] or o["key"] == "encodeDlc")):
             # (R7: the variable part of the interface status payload — count word, ids, pad to even, vendor length word, vendor data — sits where
             # the format puts it, on the builder's and on the readers' side)
             # (R1/R2: the length and DLC bytes of the CAN / LIN / Ethernet headers are (re)written with the values of this call on every path)
